@@ -378,6 +378,7 @@ class Flags:
         permute_considered=True,
         listops=True,  # ListSizeBetween (with custom mutate/crossover) vs LSBWLO only
         nested_generics=True,  # list[Union[..]], list[tuple[..]]
+        unproductive=False,  # a reachable non-terminal that cannot derive any finite program
     )
 
     def __init__(self, **kw):
@@ -424,6 +425,10 @@ def _refined_base(draw, fl: Flags):
         n = draw(st.integers(1, 3))
         return ["ann", ["str"], ["VarRange", _NAMES[:n]]]
     if k == "FloatRange":
+        if draw(st.integers(0, 3)) == 0:
+            # bounds written as int literals (as in geml.grammars.sgp: FloatRange(0, 9))
+            a = draw(st.integers(-2, 3))
+            return ["ann", ["float"], ["FloatRange", a, a + draw(st.integers(0, 4))]]
         a = draw(st.sampled_from([-1.5, 0.0, 0.25, 2.0]))
         w = draw(st.sampled_from([0.0, 0.5, 1.0, 3.0]))
         return ["ann", ["float"], ["FloatRange", a, a + w]]
@@ -640,6 +645,12 @@ def specs(draw, fl: Flags | None = None):
             dep = ["ann", draw(st.sampled_from([["int"], ["ref", draw(st.sampled_from(abs_names))]])) if not fl.finite_choice else ["ref", draw(st.sampled_from(abs_names))], ["UserMH", "raise_if", "d0", draw(st.integers(0, 1))]]
             c["fields"] = [["d0", sib], ["d1", dep]] + fields[: max(0, fl.max_fields - 2)]
 
+    if fl.unproductive and draw(st.integers(0, 2)) == 0:
+        # U0 -> CU0(f0: U0) only: legal declarations, but U0 derives no finite program; CU1 makes it
+        # reachable from a productive non-terminal (the library gives such symbols distance 1000000)
+        abstracts.append({"name": "U0", "parent": None, "style": "decorator"})
+        concretes.append({"name": "CU0", "parent": "U0", "weight": None, "fields": [["f0", ["ref", "U0"]]]})
+        concretes.append({"name": "CU1", "parent": draw(st.sampled_from(abs_names)), "weight": None, "fields": [["f0", ["ref", "U0"]]]})
     if fl.weights:
         for c in concretes:
             if c["parent"] and draw(st.booleans()):
@@ -658,10 +669,15 @@ def specs(draw, fl: Flags | None = None):
                     prods[0]["weight"] = 1
 
     start = abs_names[0]
-    if fl.concrete_start and draw(st.integers(0, 3)) == 0:
+    if fl.concrete_start == "always":
+        # a production with a class-typed field as start symbol (so that it can also occur deeper)
+        cands = [c["name"] for c in concretes if c["parent"] and any(te_refs(t) for _, t in c["fields"]) and c["name"] not in ("CU0", "CU1")]
+        if cands:
+            start = draw(st.sampled_from(cands))
+    elif fl.concrete_start and draw(st.integers(0, 3)) == 0:
         start = draw(st.sampled_from([c["name"] for c in concretes]))
 
-    considered = abs_names + [c["name"] for c in concretes]
+    considered = [a["name"] for a in abstracts] + [c["name"] for c in concretes]
     if not fl.unreachable:
         considered = _reachable_only(abstracts, concretes, start)
     if fl.permute_considered:
